@@ -25,9 +25,9 @@ type Runner struct {
 	Buckets map[string]bool // buckets that must exist
 	// counters for non-triviality rules
 	Writes, Patches, Failed, Deletes, Recreates, AdjacentWrites, ResumableMulti, Restarts int
-	lastWrite                                                                           string
-	formRot                                                                             int
-	SkipList                                                                            bool // do not compare listing order (checks that own listing semantics do it themselves)
+	lastWrite                                                                             string
+	formRot                                                                               int
+	SkipList                                                                              bool // do not compare listing order (checks that own listing semantics do it themselves)
 }
 
 func NewRunner(e *Emu) *Runner {
@@ -201,7 +201,9 @@ func (r *Runner) upload(op *Op) string {
 	case ce.Bad:
 		return fail(func(s int) bool { return s == 400 }, "unparsable precondition must give 400")
 	case badMD5 && (ce.Fails() || ce.Unspecified):
-		return fail(func(s int) bool { return s == 400 || (s == 412 && ce.OK412) || (s == 304 && ce.OK304) || ce.Unspecified && s == 412 }, "bad MD5 and failing precondition")
+		return fail(func(s int) bool {
+			return s == 400 || (s == 412 && ce.OK412) || (s == 304 && ce.OK304) || ce.Unspecified && s == 412
+		}, "bad MD5 and failing precondition")
 	case badMD5:
 		r.label("md5-rejected")
 		return fail(func(s int) bool { return s >= 400 && s < 500 }, "declared MD5 does not match: want 4xx")
@@ -675,7 +677,9 @@ func (r *Runner) patch(op *Op) string {
 	case ce.Fails():
 		r.label("precondition-failed")
 		// with a malformed body as well, 400 is an equally valid answer (the order of the two checks is not specified)
-		return fail(func(s int) bool { return (s == 412 && ce.OK412) || (s == 304 && ce.OK304) || (s == 400 && op.BadBody != "") }, fmt.Sprintf("failed precondition (412 ok=%v, 304 ok=%v)", ce.OK412, ce.OK304))
+		return fail(func(s int) bool {
+			return (s == 412 && ce.OK412) || (s == 304 && ce.OK304) || (s == 400 && op.BadBody != "")
+		}, fmt.Sprintf("failed precondition (412 ok=%v, 304 ok=%v)", ce.OK412, ce.OK304))
 	case op.BadBody != "":
 		return fail(func(s int) bool { return s == 400 }, "malformed patch body must give 400")
 	}
